@@ -79,9 +79,27 @@ func runAssertOK(c *core.Ctx) {
 				c.Ob(construct, pos, true, why)
 				return
 			}
-			what := "unchecked type assertion panics when the dynamic type differs"
-			if isDecoder[fn] {
-				what = "registered decoder asserts a wire-controlled value without comma-ok: DecodeError panics when the payload is absent or of another type"
+			// Only values controlled by the wire or by the caller are in the scope of
+			// the property; an assertion on a value the module produced itself
+			// (a cache entry, a local) is recorded but not a violation.
+			root := assertRoot(ta.X)
+			what := ""
+			switch r := root.(type) {
+			case *ssa.Parameter:
+				switch {
+				case isDecoder[r.Parent()]:
+					what = "registered decoder asserts a wire-controlled value without comma-ok: DecodeError panics when the payload is absent or of another type"
+				case sx.Exported(r.Parent()) || r.Parent().Signature.Recv() != nil || encKeys[r.Parent()] != nil:
+					what = "unchecked type assertion on a caller-supplied value panics when the dynamic type differs"
+				default:
+					what = "unchecked type assertion on a parameter panics when the dynamic type differs"
+				}
+			case *ssa.FieldAddr:
+				what = "unchecked type assertion on a struct field (possibly built by a decoder) panics when the dynamic type differs"
+			}
+			if what == "" {
+				c.Ob(construct, pos, true, "out of scope: the asserted value is produced inside the module ("+describeVal(ta.X)+"), not controlled by the wire or the caller")
+				return
 			}
 			c.Fail(construct, pos, what)
 		})
@@ -264,4 +282,48 @@ func safePrinterAssert(p *load.Program, ta *ssa.TypeAssert) (string, bool) {
 		return "", false
 	}
 	return fmt.Sprintf("guarded by state.redactableOutput, which is only set from formatErrorInternal's parameter; all %d call sites passing a non-false value pass a redact.SafePrinter", sites), true
+}
+
+// assertRoot follows value-preserving instructions to where an asserted
+// interface value comes from.
+func assertRoot(v ssa.Value) ssa.Value {
+	for i := 0; i < 8; i++ {
+		switch x := v.(type) {
+		case *ssa.ChangeInterface:
+			v = x.X
+		case *ssa.MakeInterface:
+			return x
+		case *ssa.TypeAssert:
+			v = x.X
+		case *ssa.Extract:
+			if ta, ok := x.Tuple.(*ssa.TypeAssert); ok && x.Index == 0 {
+				v = ta.X
+				continue
+			}
+			return x
+		case *ssa.UnOp:
+			if fa, ok := x.X.(*ssa.FieldAddr); ok {
+				return fa
+			}
+			u := sx.Unspill(x)
+			if u == ssa.Value(x) {
+				return x
+			}
+			v = u
+		case *ssa.Phi:
+			if len(x.Edges) == 0 {
+				return x
+			}
+			// any parameter among the edges decides
+			for _, e := range x.Edges {
+				if r, ok := assertRoot(e).(*ssa.Parameter); ok {
+					return r
+				}
+			}
+			return x
+		default:
+			return v
+		}
+	}
+	return v
 }
